@@ -145,8 +145,8 @@ var opKinds = []string{"checkout-force-branch", "checkout-force-hash", "checkout
 
 func run(c *vf.Ctx) {
 	g := gitx.New(c.Scratch)
-	nHist := c.N(10, 70)
-	perHist := c.N(14, 36)
+	nHist := c.N(10, 36)
+	perHist := c.N(14, 30)
 	var mu sync.Mutex
 	confirmSeen := map[string]bool{}
 	confirmPerKey := map[string]int{}
@@ -423,10 +423,10 @@ func run(c *vf.Ctx) {
 	c.Extra("git_invocations", gitx.Calls.Load())
 	c.Extra("op_error_samples", errSamples)
 	c.Extra("failures_by_key_and_op", failByOp)
-	c.Floor("successful sparse operations", c.Counter("ops_succeeded"), c.N(100, 1500))
-	c.Floor("operations whose selection is a string prefix of a sibling name", c.Counter("ops_with_prefix_sibling"), c.N(25, 300))
+	c.Floor("successful sparse operations", c.Counter("ops_succeeded"), c.N(100, 1000))
+	c.Floor("operations whose selection is a string prefix of a sibling name", c.Counter("ops_with_prefix_sibling"), c.N(25, 250))
 	c.Floor("operations switching an earlier selection", c.Counter("ops_switching_selection"), c.N(15, 200))
-	c.Floor("model partitions confirmed by real git sparse checkout", c.Counter("git_confirmations"), c.N(15, 120))
+	c.Floor("model partitions confirmed by real git sparse checkout", c.Counter("git_confirmations"), c.N(15, 80))
 	c.Floor("operation kinds", c.SeenCount("op_kinds"), len(opKinds))
 	c.Assume("the property's set model (not git's cone mode, which also materialises files of parent directories) is the specification; git confirms it through non-cone patterns '/d/'")
 	c.Assume("MixedReset/SoftReset with SparseDirs are outside the domain: by definition they do not update the worktree")
@@ -566,9 +566,17 @@ func evaluate(B string, op opSpec, want []twin.TreeEntry, target gen.Tree, ents 
 		fails = append(fails, failure{idxKey(p, "not-in-target"), fmt.Sprintf("index has %q (tag %s) which the target commit does not track", p, got[p].Tag)})
 	}
 	mode := forcedness(op.Kind)
+	collidesWithExtra := func(p string) bool { // a left-over index entry forms a file/directory conflict with p: p cannot be materialised correctly
+		for _, q := range extra {
+			if twin.Under(p, q) || twin.Under(q, p) {
+				return true
+			}
+		}
+		return false
+	}
 	for _, p := range paths {
 		e, ok := got[p]
-		if !ok || badIndex[p] {
+		if !ok || badIndex[p] || collidesWithExtra(p) {
 			continue
 		}
 		in := inSet(p, op.Dirs)
